@@ -49,10 +49,10 @@ func (g *vGenSess) cfg(letter string, lite bool, renom bool) string {
 			parts = append(parts, k+"="+v)
 		}
 	}
-	add("max", "", "", "1", "2", "3")
-	add("disc", "", "", "0", "1000", "3000")
-	add("fail", "", "", "0", "2000", "4000")
-	add("ka", "", "", "0", "300", "1000")
+	add("max", "", "", "", "", "1", "2", "3")
+	add("disc", "", "", "", "", "", "", "0", "1000", "3000")
+	add("fail", "", "", "", "", "", "", "0", "2000", "4000")
+	add("ka", "", "", "", "0", "300", "1000")
 	add("ci", "", "50", "100", "200")
 	add("hw", "", "", "", "100")
 	add("sw", "", "0", "500")
@@ -81,7 +81,7 @@ func vAgentGen(o *vOut, r *vRand, thorough bool, args []string, emit func(string
 	n := 60
 	budget := 25 * time.Second
 	if thorough {
-		n = 100000
+		n = 2500
 		budget = 7 * time.Minute
 	}
 	t0 := time.Now()
@@ -229,6 +229,54 @@ func (g *vGenSess) double() {
 			g.inflight--
 		}
 	}
+	// late signalling of everything that was withheld (signalled-after-prflx order), then more fair rounds
+	if r.chance(1, 2) {
+		for i := range la {
+			sigA(i)
+		}
+		for j := range lb {
+			sigB(j)
+		}
+		for i := 0; i < 4+r.intn(8); i++ {
+			g.op("adv %d", []int{50, 100, 200}[r.intn(3)])
+			for g.inflight > 0 {
+				g.op("deliver 0")
+				g.inflight--
+			}
+		}
+	}
+	// renomination phase: values in increasing, decreasing and repeated order, arbitrary delivery order
+	if renom && r.chance(2, 3) {
+		g.o.stat("phase.renom")
+		v := 1 + r.intn(3)
+		for i := 0; i < 2+r.intn(5); i++ {
+			g.op("renom A %d %d %d", la[r.intn(len(la))].addr, r.intn(nb), v)
+			switch r.intn(4) {
+			case 0:
+				v++
+			case 1:
+				if v > 1 {
+					v--
+				}
+			case 2:
+				v += 2
+			}
+			for k := 0; k < r.intn(4) && g.inflight > 0; k++ {
+				g.op("deliver %d", r.intn(g.inflight))
+				g.inflight--
+			}
+			if r.chance(1, 3) {
+				g.op("adv %d", []int{10, 100, 300}[r.intn(3)])
+			}
+		}
+		for i := 0; i < 3; i++ {
+			for g.inflight > 0 {
+				g.op("deliver 0")
+				g.inflight--
+			}
+			g.op("adv 100")
+		}
+	}
 	if r.chance(1, 3) {
 		g.op("write A %d 0", 1+r.intn(1200))
 		for g.inflight > 0 {
@@ -237,8 +285,24 @@ func (g *vGenSess) double() {
 		}
 		g.op("read B")
 	}
-	if r.chance(1, 4) {
-		g.op("adv %d", 1000*(1+r.intn(40)))
+	// liveness phase: silence in steps around the thresholds, traffic resuming at some point
+	if r.chance(1, 2) {
+		g.o.stat("phase.liveness")
+		for i := 0; i < 3+r.intn(12); i++ {
+			g.op("adv %d", []int{100, 500, 999, 1000, 1001, 2000, 2999, 3001, 5000, 5001, 10000}[r.intn(11)])
+			switch r.intn(4) {
+			case 0:
+				for g.inflight > 0 {
+					g.op("deliver 0")
+					g.inflight--
+				}
+			case 1:
+				for g.inflight > 0 {
+					g.op("drop 0")
+					g.inflight--
+				}
+			}
+		}
 	}
 	if r.chance(1, 3) {
 		g.op("close A")
@@ -263,7 +327,7 @@ func (g *vGenSess) randomAction(gen *int, addrA, addrB, net0 int) {
 			g.op("adv %d", []int{1, 10, 50, 200}[r.intn(4)])
 		}
 	case x < 60:
-		g.op("adv %d", []int{1, 10, 50, 100, 200, 500, 1000, 3000}[r.intn(8)])
+		g.op("adv %d", []int{1, 10, 50, 50, 100, 100, 200, 200, 500, 1000}[r.intn(10)])
 	case x < 67:
 		if g.inflight > 0 {
 			g.op("drop %d", r.intn(g.inflight))
@@ -311,7 +375,7 @@ func (g *vGenSess) randomAction(gen *int, addrA, addrB, net0 int) {
 			sl = 1
 		}
 		g.op("data %s %d %d %d %d", w, la, src, 1+r.intn(500), sl)
-	case x < 94:
+	case x < 95:
 		g.op("renom A %d %d %d", addrA, r.intn(3), r.intn(6))
 	case x < 96:
 		// one-sided or two-sided restart with re-signalling
@@ -345,7 +409,11 @@ func (g *vGenSess) randomAction(gen *int, addrA, addrB, net0 int) {
 	case x < 98:
 		g.op("addremote A %d %d %d %d %s", 1+r.intn(4), net0, 16*(11+r.intn(4))+r.intn(2), g.prio(), []string{"-", "-", "0", "160"}[r.intn(4)])
 	default:
-		g.op("adv %d", 5000+r.intn(30000))
+		if r.chance(1, 8) {
+			g.op("adv %d", 2000+r.intn(30000))
+		} else {
+			g.op("adv %d", 20)
+		}
 	}
 }
 
